@@ -144,14 +144,23 @@ Definition InvC (t : tbl) (m : mech) (p : pend) : Prop :=
   (forall r, prevent m r = false) /\
   forall r, In r (rows t) -> (pm p r = true -> dirty m r = true) /\ (dirty m r = true -> py p r = true).
 
-Lemma clear_inv : forall t m p,
-  Inv t m p -> existsb (fun r => dirty m r && prevent m r) (rows t) = false -> InvC t (clear_prevent m) p.
+Lemma clear_inv : forall g t m p,
+  Inv t m p ->
+  negb (fx_lost (fx g)) && existsb (fun r => dirty m r && prevent m r) (rows t) = false ->
+  InvC t (clear_prevent g m) p.
 Proof.
-  intros t m p HI Hl. split; [reflexivity|]. intros r Hr. cbn.
-  destruct (HI r Hr) as [H1 H2]. pose proof (existsb_false_In _ _ _ Hl r Hr) as H. cbn beta in H.
-  unfold eff_dirty in *. split.
+  intros g t m p HI Hl. split; [reflexivity|]. intros r Hr. cbn [clear_prevent dirty].
+  destruct (HI r Hr) as [H1 H2]. unfold eff_dirty in *.
+  destruct (fx_lost (fx g)); cbn [negb andb] in *; [split; assumption|].
+  pose proof (existsb_false_In _ _ _ Hl r Hr) as H. cbn beta in H. rewrite andb_true_r. split.
   - intros Hp. apply H1 in Hp. apply andb_true_iff in Hp. tauto.
   - intros Hd. apply H2. rewrite Hd in *. cbn in *. rewrite H. reflexivity.
+Qed.
+
+Lemma add_recalc_computes : forall g cols, add_recalc g cols = add_computes g cols.
+Proof.
+  intros g cols. unfold add_recalc, add_computes, selfdep, is_default, is_never.
+  destruct (memz trc cols); destruct (when g); destruct (memz trc (deps g)); reflexivity.
 Qed.
 
 Lemma unprotected_false : forall t m xs, unprotected t m xs = false ->
@@ -170,18 +179,24 @@ Proof.
   intros g t m p cols recs [Hp HI] Hst Hun r Hr.
   pose proof (unprotected_false _ _ _ Hun r Hr) as Hu. clear Hun.
   cbn [data_user data_doc rows] in Hr. cbn [xadd] in Hu. unfold stale_user in Hst. cbn [stale_user_k andb] in Hst.
-  unfold eff_dirty in *. cbn [mech_user mech_doc dirty prevent spec_user pm py] in *. rewrite Hp in *.
-  unfold set_or in *. cbn [negb] in *. rewrite !andb_true_r in *.
+  unfold eff_dirty in *. cbn [mech_user mech_doc dirty prevent spec_user pm py] in *.
+  unfold set_or in *. rewrite Hp in *. cbn [orb] in *. rewrite add_recalc_computes in *.
   destruct (memz r (ids recs)) eqn:Em.
-  - destruct (add_computes g cols) eqn:Ex.
-    2: { rewrite (Hu Em). split; intros; discriminate. }
-    clear Hu. unfold add_computes in Ex. apply andb_true_iff in Ex. destruct Ex as [En Ex].
+  - rewrite ?andb_true_r in *. destruct (add_computes g cols) eqn:Ex.
+    2: { destruct (fx_add (fx g)); cbn [andb negb] in *.
+         - rewrite andb_false_r. split; intros; discriminate.
+         - rewrite (Hu Em). split; intros; discriminate. }
+    clear Hu.
+    assert (Hnp : negb (fx_add (fx g) && negb (fx_add (fx g) && true)) = true) by (destruct (fx_add (fx g)); reflexivity).
+    rewrite Hnp, andb_true_r. clear Hnp.
+    unfold add_computes in Ex. apply andb_true_iff in Ex. destruct Ex as [En Ex].
     rewrite En. destruct (memz trc cols) eqn:Et; cbn [negb orb andb] in *.
     + rewrite Ex in Hst. apply memz_In, ids_In in Em. destruct Em as [w [Hw _]].
       rewrite (nonnil_In _ _ _ Hw) in Hst. cbn [andb] in Hst. apply negb_false_iff in Hst.
       rewrite Hst. rewrite !orb_true_r. split; reflexivity.
     + rewrite !orb_true_r. split; reflexivity.
-  - rewrite !andb_false_r, !orb_false_r. apply in_app_or in Hr. destruct Hr as [Hr|Hr].
+  - rewrite ?andb_false_r, ?orb_false_r. cbn [andb negb]. rewrite ?andb_true_r.
+    apply in_app_or in Hr. destruct Hr as [Hr|Hr].
     + apply HI. exact Hr.
     + apply memz_In in Hr. congruence.
 Qed.
@@ -213,11 +228,15 @@ Proof.
   unfold set_or in *. rewrite Hp in *. cbn [orb] in *.
   destruct (memz r (ids recs)) eqn:Em.
   2: { pose proof (trim_ids_sub t cols' recs r Em) as Em'. change (memz r (ids recs') = false) in Em'.
-       rewrite Em'. rewrite !andb_false_r, !orb_false_r. cbn [andb negb].
+       rewrite Em'. rewrite !andb_false_r, !orb_false_r. cbn [andb negb orb].
        rewrite andb_true_r. split; assumption. }
+  rewrite andb_true_r in *.
   destruct (memz trc cols && negb (selfdep g)) eqn:Eex.
-  - rewrite (Hu Em). split; intros; discriminate.
-  - clear Hu.
+  - destruct (fx_trim (fx g)); cbn [andb] in *.
+    + apply andb_true_iff in Eex. destruct Eex as [_ Eex]. apply negb_true_iff in Eex. rewrite Eex.
+      rewrite orb_true_r, !andb_false_r. cbn [andb negb]. split; intros; discriminate.
+    + rewrite (Hu Em). split; intros; discriminate.
+  - clear Hu. rewrite andb_false_r, orb_false_r.
     assert (Hprev : memz trc cols' && memz r (ids recs') &&
                     negb (nonnil cols' && memz trc cols' && selfdep g && memz r (ids recs')) = false).
     { destruct (memz trc cols') eqn:Et; [|reflexivity]. destruct (memz r (ids recs')); [|reflexivity].
@@ -283,13 +302,14 @@ Lemma step_doc : forall g t m p xs d,
 Proof.
   intros g t m p xs d [J1 [J2 J3]] Hst. unfold stale_doc in Hst. destruct d as [cols recs | cols recs | rs | c | c].
   - (* DAdd *) cbn [data_doc mech_doc spec_doc doc_adds]. split; [|split]; cbn [prevent ex pm py dirty rows].
-    + intros r H. rewrite (J1 r H). reflexivity.
+    + intros r H. unfold set_or in H. apply orb_true_iff in H. destruct H as [H|H]; [rewrite (J1 r H); reflexivity|].
+      apply andb_true_iff in H. destruct H as [_ H]. rewrite H. apply orb_true_r.
     + intros r H. apply orb_true_iff in H. destruct H as [H|H].
-      * destruct (J2 r H) as [A|A]; [left; exact A | right; rewrite A; reflexivity].
+      * destruct (J2 r H) as [A|A]; [left; unfold set_or; rewrite A; reflexivity | right; rewrite A; reflexivity].
       * right. rewrite H. apply orb_true_r.
     + intros r Hr. unfold set_or. destruct (memz r (ids recs)) eqn:Em.
       * rewrite !orb_true_r. split; intros; discriminate.
-      * rewrite andb_false_r, !orb_false_r. apply in_app_or in Hr. destruct Hr as [Hr|Hr]; [apply J3; exact Hr|].
+      * rewrite !andb_false_r, !orb_false_r. apply in_app_or in Hr. destruct Hr as [Hr|Hr]; [apply J3; exact Hr|].
         apply memz_In in Hr. congruence.
   - (* DUpd *) cbn [data_doc mech_doc spec_doc doc_adds stale_doc_k] in *.
     split; [|split]; cbn [prevent ex pm py dirty rows]; unfold set_or.
@@ -373,13 +393,13 @@ Qed.
 (* ---------------------------------------------------------------- one user action, then the whole bundle *)
 Lemma step_user : forall g t m p a,
   Inv t m p ->
-  existsb (fun r => dirty m r && prevent m r) (rows t) = false ->
-  stale_user g t (clear_prevent m) a = false ->
-  unprotected (data_user t a) (mech_user g t (clear_prevent m) a) (xadd g a) = false ->
-  unprotected (data_user t a) (mech_user g t (clear_prevent m) a) (xupd g a) = false ->
-  Inv (data_user t a) (mech_user g t (clear_prevent m) a) (spec_user g t p a).
+  negb (fx_lost (fx g)) && existsb (fun r => dirty m r && prevent m r) (rows t) = false ->
+  stale_user g t (clear_prevent g m) a = false ->
+  unprotected (data_user t a) (mech_user g t (clear_prevent g m) a) (xadd g a) = false ->
+  unprotected (data_user t a) (mech_user g t (clear_prevent g m) a) (xupd g a) = false ->
+  Inv (data_user t a) (mech_user g t (clear_prevent g m) a) (spec_user g t p a).
 Proof.
-  intros g t m p a HI Hl Hs Ha Hu. pose proof (clear_inv t m p HI Hl) as HC. destruct a as [cols recs | cols recs | ds].
+  intros g t m p a HI Hl Hs Ha Hu. pose proof (clear_inv g t m p HI Hl) as HC. destruct a as [cols recs | cols recs | ds].
   - apply step_UAdd; assumption.
   - apply step_UUpd; assumption.
   - apply step_UDocs; assumption.
@@ -500,17 +520,18 @@ Proof.
 Qed.
 
 Lemma schema_actions_dirty : forall g b t m,
-  forallb is_schema_action b = true ->
-  forall r, dirty (snd (mech_actions g t m b)) r = dirty m r.
+  forallb is_schema_action b = true -> (forall r, dirty m r = false) ->
+  forall r, dirty (snd (mech_actions g t m b)) r = false.
 Proof.
-  intros g b. induction b as [|a b IH]; intros t m H r; [reflexivity|].
-  cbn [forallb] in H. apply andb_true_iff in H. destruct H as [Ha H]. cbn [mech_actions]. rewrite (IH _ _ H).
-  destruct a as [? ?|? ?|ds]; try discriminate. cbn [mech_user]. rewrite schema_docs_dirty; [reflexivity | exact Ha].
+  intros g b. induction b as [|a b IH]; intros t m H Hd r; [apply Hd|].
+  cbn [forallb] in H. apply andb_true_iff in H. destruct H as [Ha H]. cbn [mech_actions]. apply (IH _ _ H).
+  intros r'. destruct a as [? ?|? ?|ds]; try discriminate. cbn [mech_user].
+  rewrite schema_docs_dirty; [|exact Ha]. cbn [clear_prevent dirty]. rewrite Hd. reflexivity.
 Qed.
 
 Theorem schema_bundle_never_fires : forall g t b, forallb is_schema_action b = true -> fired g t b = [].
 Proof.
-  intros g t b H. unfold fired. pose proof (schema_actions_dirty g b t mech0 H) as Hd.
+  intros g t b H. unfold fired. pose proof (schema_actions_dirty g b t mech0 H (fun _ => eq_refl)) as Hd.
   destruct (mech_actions g t mech0 b) as [t' m']. cbn [snd] in Hd. unfold fired_of. apply filter_none.
   intros r. rewrite Hd. reflexivity.
 Qed.
@@ -541,7 +562,7 @@ Proof.
   cbn [flag_actions]. unfold any_flag, or_flags, no_flags. cbn [fl_add fl_lost fl_stale fl_fstale fl_trim].
   rewrite !orb_false_r. cbn [xadd xupd]. rewrite H. cbn [andb]. unfold unprotected.
   repeat rewrite existsb_none by (intros; reflexivity).
-  cbn [stale_user_k]. rewrite !stale_hit_fresh by (intros; reflexivity). reflexivity.
+  cbn [stale_user_k]. rewrite !stale_hit_fresh by (intros; reflexivity). rewrite ?andb_false_r. reflexivity.
 Qed.
 
 Theorem regular_single_add : forall g t cols recs,
@@ -552,10 +573,133 @@ Proof.
   rewrite !orb_false_r. cbn [xadd xupd stale_user_k]. rewrite H. rewrite !andb_false_r. cbn [andb orb].
   unfold unprotected. rewrite (existsb_none _ _ (rows t)) by (intros; reflexivity).
   rewrite (existsb_none _ (fun r => memz r [] && _)) by (intros; reflexivity).
-  rewrite !orb_false_r. unfold add_computes. rewrite H. cbn [negb orb]. rewrite andb_true_r.
+  rewrite ?andb_false_r, ?orb_false_r. unfold add_computes. rewrite H. cbn [negb orb]. rewrite andb_true_r.
   destruct (is_never g) eqn:En; cbn [negb]; [|apply existsb_none; intros; reflexivity].
   apply existsb_none. intros r. unfold eff_dirty. cbn [mech_user mech_doc dirty prevent clear_prevent mech0].
-  unfold set_or. rewrite En. cbn [negb andb]. rewrite andb_false_r, orb_false_r. cbn [orb].
-  rewrite (existsb_none _ _ (table_cols g)); [cbn; apply andb_false_r|].
+  unfold set_or. rewrite En. cbn [negb andb orb]. rewrite ?andb_false_r, ?orb_false_r. cbn [orb andb].
+  rewrite (existsb_none _ _ (table_cols g)); [cbn; rewrite ?andb_false_r; reflexivity|].
   intros c. apply reach_not_default. unfold is_default. unfold is_never in En. destruct (when g); congruence.
+Qed.
+
+(* ---------------------------------------------------------------- the repaired source *)
+(* With the repairs of C15-add-with-value / C15-exemption-lost / C15-explicit-value-trimmed in place
+   (fx_add, fx_lost, fx_trim) the flags fl_add, fl_lost and fl_trim can no longer be raised. *)
+Lemma prevent_mono_doc : forall g m d r, prevent m r = true -> prevent (mech_doc g m d) r = true.
+Proof.
+  intros g m d r H. destruct d; cbn [mech_doc prevent]; unfold set_or; rewrite ?H; reflexivity.
+Qed.
+
+Lemma prevent_mono_docs : forall g ds m r, prevent m r = true -> prevent (fold_left (mech_doc g) ds m) r = true.
+Proof.
+  intros g ds. induction ds as [|d ds IH]; intros m r H; [exact H|]. cbn [fold_left]. apply IH.
+  apply prevent_mono_doc. exact H.
+Qed.
+
+Lemma dadd_prevented : forall g, fx_add (fx g) = true ->
+  forall ds m r, memz r (dadd_ids ds) = true -> prevent (fold_left (mech_doc g) ds m) r = true.
+Proof.
+  intros g Hx ds. induction ds as [|d ds IH]; intros m r H; [discriminate|].
+  unfold dadd_ids in H. cbn [flat_map] in H. fold (dadd_ids ds) in H. rewrite memz_app in H.
+  apply orb_true_iff in H. cbn [fold_left]. destruct H as [H|H]; [|apply IH; exact H].
+  apply prevent_mono_docs. destruct d; try discriminate. cbn [mech_doc prevent]. unfold set_or.
+  rewrite Hx, H. apply orb_true_r.
+Qed.
+
+Lemma repaired_action_flags : forall g, fx_add (fx g) = true -> fx_trim (fx g) = true ->
+  forall t m a, (forall r, prevent m r = false) ->
+  unprotected (data_user t a) (mech_user g t m a) (xadd g a) = false /\
+  unprotected (data_user t a) (mech_user g t m a) (xupd g a) = false.
+Proof.
+  intros g Ha Ht t m a Hp. unfold unprotected. destruct a as [cols recs | cols recs | ds]; cbn [xadd xupd]; split;
+    try (apply existsb_none; intros; reflexivity).
+  - (* UAdd, rows added without a formula value: exempt *)
+    apply existsb_none. intros r. destruct (add_computes g cols) eqn:Ex; [reflexivity|].
+    destruct (memz r (ids recs)) eqn:Em; [|reflexivity]. unfold eff_dirty.
+    cbn [mech_user mech_doc prevent dirty andb]. unfold set_or. rewrite Hp, Ha, Em, add_recalc_computes, Ex.
+    cbn. apply andb_false_r.
+  - (* UUpd with a supplied trigger value: exempt *)
+    apply existsb_none. intros r. unfold eff_dirty. cbn [mech_user mech_doc prevent dirty]. unfold set_or.
+    rewrite Ht. cbn [andb]. destruct (memz trc cols && negb (selfdep g)) eqn:Ex; [|reflexivity].
+    destruct (memz r (ids recs)) eqn:Em; [|reflexivity]. cbn [andb]. rewrite orb_true_r.
+    apply andb_true_iff in Ex. destruct Ex as [_ Ex]. apply negb_true_iff in Ex. rewrite Ex.
+    rewrite !andb_false_r. cbn. rewrite ?andb_false_r. reflexivity.
+  - (* UDocs: re-added rows are exempt *)
+    apply existsb_none. intros r. destruct (memz r (dadd_ids ds)) eqn:Em; [|reflexivity]. unfold eff_dirty.
+    cbn [mech_user]. rewrite (dadd_prevented g Ha ds m r Em). cbn. apply andb_false_r.
+Qed.
+
+Theorem repaired_flags : forall g, fx_add (fx g) = true -> fx_lost (fx g) = true -> fx_trim (fx g) = true ->
+  forall b t m, fl_add (flag_actions g t m b) = false /\ fl_lost (flag_actions g t m b) = false /\
+                fl_trim (flag_actions g t m b) = false.
+Proof.
+  intros g Ha Hl Ht b. induction b as [|a b IH]; intros t m; [repeat split|].
+  cbn [flag_actions or_flags fl_add fl_lost fl_trim].
+  destruct (IH (data_user t a) (mech_user g t (clear_prevent g m) a)) as [I1 [I2 I3]]. rewrite I1, I2, I3, Hl.
+  destruct (repaired_action_flags g Ha Ht t (clear_prevent g m) a (fun _ => eq_refl)) as [A B]. rewrite A, B.
+  repeat split.
+Qed.
+
+(* bundles without schema actions never meet a missing edge *)
+Definition record_doc (d : daction) : bool := match d with DRename _ | DModify _ => false | _ => true end.
+Definition record_action (a : uaction) : bool := match a with UDocs ds => forallb record_doc ds | _ => true end.
+Definition fresh (m : mech) : Prop := (forall c, stale m c = false) /\ (forall c, fstale m c = false).
+
+Lemma fresh_doc : forall g m d, record_doc d = true -> fresh m -> fresh (mech_doc g m d).
+Proof. intros g m d H F. destruct d; try discriminate; exact F. Qed.
+
+Lemma fresh_docs : forall g ds m, forallb record_doc ds = true -> fresh m -> fresh (fold_left (mech_doc g) ds m).
+Proof.
+  intros g ds. induction ds as [|d ds IH]; intros m H F; [exact F|]. cbn [forallb] in H.
+  apply andb_true_iff in H. destruct H as [H1 H2]. cbn [fold_left]. apply IH; [exact H2|]. apply fresh_doc; assumption.
+Qed.
+
+Lemma fresh_stale_docs : forall ka kb g ds m, forallb record_doc ds = true -> fresh m -> stale_docs_k ka kb g m ds = false.
+Proof.
+  intros ka kb g ds. induction ds as [|d ds IH]; intros m H F; [reflexivity|]. cbn [forallb] in H.
+  apply andb_true_iff in H. destruct H as [H1 H2]. cbn [stale_docs_k]. rewrite IH; [|exact H2|apply fresh_doc; assumption].
+  rewrite orb_false_r. destruct d; try reflexivity. cbn [stale_doc_k]. destruct F as [F1 F2]. apply stale_hit_fresh; assumption.
+Qed.
+
+Lemma fresh_clear : forall g m, fresh m -> fresh (clear_prevent g m).
+Proof. intros g m [F1 F2]. split; intros c; cbn; [rewrite F1; reflexivity | apply F2]. Qed.
+
+Lemma fresh_user : forall g t m a, record_action a = true -> fresh m -> fresh (mech_user g t m a).
+Proof.
+  intros g t m a H F. destruct a as [? ?|? ?|ds]; cbn [mech_user].
+  - exact F.
+  - exact F.
+  - apply fresh_docs; assumption.
+Qed.
+
+Lemma record_bundle_no_stale : forall g b t m, forallb record_action b = true -> fresh m ->
+  fl_stale (flag_actions g t m b) = false /\ fl_fstale (flag_actions g t m b) = false.
+Proof.
+  intros g b. induction b as [|a b IH]; intros t m H F; [split; reflexivity|]. cbn [forallb] in H.
+  apply andb_true_iff in H. destruct H as [H1 H2]. cbn [flag_actions or_flags fl_stale fl_fstale].
+  pose proof (fresh_clear g m F) as Fc.
+  destruct (IH (data_user t a) (mech_user g t (clear_prevent g m) a) H2 (fresh_user g t _ a H1 Fc)) as [I1 I2].
+  rewrite I1, I2, !orb_false_r. destruct Fc as [F1 F2].
+  destruct a as [cols recs | cols recs | ds]; cbn [stale_user_k].
+  - split; [|reflexivity]. unfold table_cols.
+    destruct (selfdep g && memz trc cols && nonnil recs) eqn:E; [|reflexivity]. cbn [andb].
+    apply andb_true_iff in E. destruct E as [E _]. apply andb_true_iff in E. destruct E as [E _].
+    unfold selfdep in E. apply andb_true_iff in E. destruct E as [Ed Em]. apply negb_false_iff.
+    apply existsb_true_intro with (x := trc); [apply in_or_app; left; apply memz_In; exact Em|].
+    unfold reach, via_self, edge_live. rewrite Ed, Em, F1, F2, andb_false_r. reflexivity.
+  - split; apply stale_hit_fresh; assumption.
+  - split; apply fresh_stale_docs; try assumption; split; assumption.
+Qed.
+
+Lemma fresh0 : fresh mech0.
+Proof. split; intros; reflexivity. Qed.
+
+(* The property at full strength for the repaired source, on bundles of record actions. *)
+Theorem fires_iff_spec_repaired : forall g t b r,
+  fx_add (fx g) = true -> fx_lost (fx g) = true -> fx_trim (fx g) = true ->
+  forallb record_action b = true ->
+  In r (rows (step g t b)) -> unconstrained g t b r = false -> memz r (fired g t b) = spec g t b r.
+Proof.
+  intros g t b r Ha Hl Ht Hb. apply fires_iff_spec. unfold regular, bundle_flags, any_flag.
+  destruct (repaired_flags g Ha Hl Ht b t mech0) as [A [B C]].
+  destruct (record_bundle_no_stale g b t mech0 Hb fresh0) as [D E]. rewrite A, B, C, D, E. reflexivity.
 Qed.
